@@ -71,6 +71,27 @@ class TLCResult:
         }
 
 
+def _acquire_slot():
+    """Machine-wide bound on concurrently running TLC JVMs (several checks / builders share the box):
+    one of VERIF_TLC_SLOTS (default 10) lock files is held for the duration of a run."""
+    import fcntl  # noqa: PLC0415
+
+    n = int(os.environ.get("VERIF_TLC_SLOTS", "10") or 10)
+    if n <= 0:
+        return None
+    d = os.path.join(tempfile.gettempdir(), "gverif-tlc-slots")
+    os.makedirs(d, exist_ok=True)
+    while True:
+        for i in range(n):
+            fh = open(os.path.join(d, f"slot{i}"), "w")  # noqa: SIM115
+            try:
+                fcntl.flock(fh, fcntl.LOCK_EX | fcntl.LOCK_NB)
+                return fh
+            except OSError:
+                fh.close()
+        time.sleep(0.5)
+
+
 def _parse_case(raw: str):
     # raw is a TLA+ string literal whose content is JSON text; TLA+ escapes are a subset of JSON's.
     try:
@@ -96,7 +117,7 @@ def run(
     constants: dict | None = None,
     cfg_text: str | None = None,
     keep_out: str | None = None,
-    heap: str = "4g",
+    heap: str = "3g",
     on_line=None,
     dump_trace: bool = False,
 ) -> TLCResult:
@@ -137,15 +158,20 @@ def run(
         penv = dict(os.environ)
         penv.pop("JAVA_TOOL_OPTIONS", None)
         penv.update({k: str(v) for k, v in (env or {}).items()})
-        t0 = time.time()
         out_path = os.path.join(meta, "tlc.out")
-        with open(out_path, "w") as out:
-            try:
-                proc = subprocess.run(cmd, stdout=out, stderr=subprocess.STDOUT, env=penv, cwd=SPEC_DIR, timeout=timeout, check=False)
-                res.rc = proc.returncode
-            except subprocess.TimeoutExpired:
-                res.rc = -9
-                res.errors.append(f"timeout after {timeout}s")
+        slot = _acquire_slot()
+        t0 = time.time()
+        try:
+            with open(out_path, "w") as out:
+                try:
+                    proc = subprocess.run(cmd, stdout=out, stderr=subprocess.STDOUT, env=penv, cwd=SPEC_DIR, timeout=timeout, check=False)
+                    res.rc = proc.returncode
+                except subprocess.TimeoutExpired:
+                    res.rc = -9
+                    res.errors.append(f"timeout after {timeout}s")
+        finally:
+            if slot is not None:
+                slot.close()
         res.wall_s = time.time() - t0
         tail = []
         with open(out_path, errors="replace") as fh:
